@@ -1,6 +1,6 @@
 #!/bin/bash
 # tools/rf1.sh C06-r1 C06[,C07]  : run the given checks on one stored refactoring and print the reports
-/venv/bin/python "$(dirname "$0")/seedeval.py" "$(dirname "$0")/../refactors/$1" --props "${2:-C01,C02,C03,C04,C05,C06,C07,C08,C09,C10,C11,C12,C13,C14,C15,C16,C17,C18,C19,C20}" --json | /venv/bin/python -c "
+/venv/bin/python "$(dirname "$0")/seedeval.py" "$(dirname "$0")/../$( [ -d "$(dirname "$0")/../seeded/$1" ] && echo seeded || echo refactors )/$1" --props "${2:-C01,C02,C03,C04,C05,C06,C07,C08,C09,C10,C11,C12,C13,C14,C15,C16,C17,C18,C19,C20}" --json | /venv/bin/python -c "
 import json,sys
 r=json.load(sys.stdin)
 print('fired',r.get('fired'),'incomplete',r.get('incomplete'), r.get('apply',''))
